@@ -495,19 +495,34 @@ func isKey(r sg.NodeRef) bool {
 	return r.Parent != nil && r.Parent.Kind == "list" && r.Node.Name == r.Parent.Key
 }
 
-func inUnique(r sg.NodeRef) bool {
-	if r.Parent == nil {
-		return false
-	}
-	for _, u := range r.Parent.Uniques {
-		for _, f := range strings.Fields(u) {
-			if f == r.Node.Name {
-				return true
+// uniqueNodes: every node that a unique statement of the module names, directly or as a step of a descendant path
+var uniqueNodes = map[*sg.Node]bool{}
+
+func noteUniques(kids []*sg.Node) {
+	for _, k := range kids {
+		for _, u := range k.Uniques {
+			for _, f := range strings.Fields(u) {
+				cur := k.Kids
+				for _, step := range strings.Split(f, "/") {
+					var next *sg.Node
+					for _, c := range cur {
+						if c.Name == step {
+							next = c
+						}
+					}
+					if next == nil {
+						break
+					}
+					uniqueNodes[next] = true
+					cur = next.Kids
+				}
 			}
 		}
+		noteUniques(k.Kids)
 	}
-	return false
 }
+
+func inUnique(r sg.NodeRef) bool { return uniqueNodes[r.Node] }
 
 func simpleString(t *sg.TypeSpec) bool {
 	return t != nil && t.Name == "string"
@@ -645,6 +660,8 @@ func applyEdit(r sg.NodeRef, e DevEdit) (stmt string, remove bool) {
 func genDev(t *rapid.T) DevCase {
 	g := &sg.G{T: t, Cfg: sg.GenCfg{MaxMods: 2, ConfigFalse: true, NoFeatures: true, NoAugments: true}}
 	c := DevCase{Mods: g.GenSet()}
+	uniqueNodes = map[*sg.Node]bool{}
+	noteUniques(c.Mods[0].Nodes)
 	refs := sg.ListNodes(c.Mods[0])
 	nd := 1 + g.Pick(3, "ndev")
 	used := map[int]bool{}
